@@ -3,7 +3,7 @@
 several at a time.  The registered procedure (apply to /repo, run, undo) is tools/seeded.py detect."""
 import json, os, subprocess, sys, tempfile, shutil
 from concurrent.futures import ThreadPoolExecutor
-VERIF='/verif'; REPO='/repo'
+VERIF=os.path.dirname(os.path.dirname(os.path.abspath(__file__))); REPO='/repo'
 def sh(cmd, cwd=None, env=None, timeout=7200):
     r=subprocess.run(cmd, shell=True, cwd=cwd, capture_output=True, text=True, timeout=timeout, env=env)
     return r.returncode, r.stdout+r.stderr
@@ -32,7 +32,7 @@ if __name__=='__main__':
     checks=sys.argv[1].split(',')
     sids=sys.argv[2:] or sorted(os.listdir(f'{VERIF}/seeded'))
     out={}
-    with ThreadPoolExecutor(max_workers=3) as ex:
+    with ThreadPoolExecutor(max_workers=2) as ex:
         for sid,res in ex.map(lambda s: one(s,checks), sids):
             out[sid]=res
             det=[c for c,r in res.items() if isinstance(r,dict) and r.get('violations')]
